@@ -62,7 +62,7 @@ def _supplied(H, k):
     return n
 
 
-def _edit(H, pat, setter, fail_at, exc_type, supplied, touched):
+def _edit(H, pat, setter, fail_at, exc_type, supplied, touched, parity=0):
     """Run one bulk edit whose callable fails at call number `fail_at` (None = never)."""
     state = {"k": 0}
 
@@ -80,7 +80,7 @@ def _edit(H, pat, setter, fail_at, exc_type, supplied, touched):
         k = 0
         for line in range(p.lines):
             for track in range(p.tracks):
-                if (line * p.tracks + track) % 2 == 0:
+                if (line * p.tracks + track) % 2 == parity:
                     if fail_at is not None and k == fail_at:
                         raise exc_type("injected")
                     note = supplied[k]
@@ -122,7 +122,10 @@ def bulk_edit_all_or_nothing(H, case):
         # the pattern stays usable: a second, successful edit
         supplied2 = [_supplied(H, 100 + k) for k in range(ncalls)]
         touched2 = {}
-        exc2, res2 = _edit(H, pat, setter, None, None, supplied2, touched2)
+        # the follow-up edit is generator based and touches the OTHER half of the cells, so that cells
+        # the failed edit had already written to its scratch copy stay untouched now
+        exc2, res2 = _edit(H, pat, "gen", None, None, supplied2, touched2, parity=1)
+        setter = "gen"
         H.check("later_edit_succeeds", exc2 is None and res2 is pat)
         touched, supplied = touched2, supplied2
         if exc2 is not None:
